@@ -36,3 +36,15 @@ Proof.
   eapply hs_deeper; [left; reflexivity|vm_compute; reflexivity|left; reflexivity|reflexivity|].
   eapply hs_here; [right; left; reflexivity|vm_compute; reflexivity|vm_compute; reflexivity].
 Qed.
+
+From WaxModel Require Import Parse Glob.
+From WaxProofs Require Import BuiltNonempty.
+
+(* for every glob that builds (no side condition on the tree) *)
+Theorem C12_built_root_sound : forall orbit e t r p, build e = BuildOk t r -> has_root t = Always -> Lang orbit t p -> starts_sep p = true.
+Proof. exact built_root_sound. Qed.
+Print Assumptions C12_built_root_sound.
+
+Theorem C12_built_globs_have_nonempty_branches : forall e t r, build e = BuildOk t r -> nonempty_branches t = true.
+Proof. exact built_nonempty_branches. Qed.
+Print Assumptions C12_built_globs_have_nonempty_branches.
